@@ -232,6 +232,15 @@ func genChain(r *rand.Rand, tag *int) string {
 		if next != "" {
 			fields = append(fields, "\"next\":"+next)
 		}
+		if r.Intn(6) == 0 {
+			/* a page may say where its collection starts (a CollectionPage is a Collection);
+			   that is not where the page continues. Also a root may carry a stray `next`. */
+			*tag++
+			fields = append(fields, fmt.Sprintf("\"first\":{\"type\":%q,%q:[\"f%d\"]}", kindPage, itemsKey, *tag))
+			if r.Intn(3) == 0 {
+				fields = append(fields, "\"partOf\":\"https://plaintext.example/root\"", "\"prev\":{\"type\":\"CollectionPage\"}")
+			}
+		}
 		if r.Intn(30) == 0 {
 			fields[0] = fmt.Sprintf("\"type\":%q", pick(r, []string{"Collection", "OrderedCollection", "OrderedCollectionPage", "CollectionPage"}))
 		}
@@ -245,6 +254,10 @@ func genChain(r *rand.Rand, tag *int) string {
 	}
 	if next != "" {
 		fields = append(fields, "\"first\":"+next)
+	}
+	if r.Intn(8) == 0 {
+		*tag++
+		fields = append(fields, fmt.Sprintf("\"next\":{\"type\":%q,%q:[\"n%d\"]}", kindPage, itemsKey, *tag))
 	}
 	return "{" + strings.Join(fields, ",") + "}"
 }
